@@ -928,8 +928,8 @@ func inlineGuardedHelpers(fset *token.FileSet, fn *ast.FuncDecl, decls map[strin
 		if ref, has := c07Renamed[id.Name]; has {
 			canon = ref
 		}
-		if strings.HasPrefix(canon, "readUint") || decls[id.Name] == nil || depth > 1 {
-			return nil, false
+		if strings.HasPrefix(canon, "readUint") && strings.HasSuffix(canon, "LengthPrefixed") || decls[id.Name] == nil || depth > 1 {
+			return nil, false // (readUintNLengthPrefixed are counted as reads where they stand)
 		}
 		h := clone(decls[id.Name])
 		if h == nil || h.Body == nil || h.Type.Results == nil || len(h.Type.Results.List) != 1 {
@@ -946,8 +946,54 @@ func inlineGuardedHelpers(fset *token.FileSet, fn *ast.FuncDecl, decls map[strin
 				i++
 			}
 		}
+		// a function literal handed to the helper (a "for each value" callback): where the helper calls the parameter
+		// as a statement, the literal's body stands there with its parameters replaced by the call's arguments
+		litFor := func(e ast.Expr) *ast.FuncLit {
+			fl, _ := e.(*ast.FuncLit)
+			if fl == nil || fl.Type.Results != nil && len(fl.Type.Results.List) > 0 {
+				return nil
+			}
+			return fl
+		}
 		body := astutil.Apply(h.Body, func(cur *astutil.Cursor) bool {
 			switch x := cur.Node().(type) {
+			case *ast.ExprStmt:
+				if call, ok := x.X.(*ast.CallExpr); ok {
+					if pid, ok := call.Fun.(*ast.Ident); ok {
+						if fl := litFor(env[pid.Name]); fl != nil {
+							lenv := map[string]ast.Expr{}
+							k := 0
+							for _, fld := range fl.Type.Params.List {
+								for _, nm := range fld.Names {
+									if k < len(call.Args) {
+										lenv[nm.Name] = call.Args[k]
+									}
+									k++
+								}
+							}
+							var buf bytes.Buffer
+							buf.WriteString("package p\nfunc f() ")
+							if err := printer.Fprint(&buf, fset, fl.Body); err == nil {
+								if pf, err := parser.ParseFile(token.NewFileSet(), "lit.go", buf.Bytes(), 0); err == nil && len(pf.Decls) == 1 {
+									lb := pf.Decls[0].(*ast.FuncDecl).Body
+									lb = astutil.Apply(lb, func(c2 *astutil.Cursor) bool {
+										if idn, ok := c2.Node().(*ast.Ident); ok {
+											if a, ok := lenv[idn.Name]; ok {
+												if _, isField := c2.Parent().(*ast.SelectorExpr); isField && c2.Name() == "Sel" {
+													return true
+												}
+												c2.Replace(a)
+											}
+										}
+										return true
+									}, nil).(*ast.BlockStmt)
+									cur.Replace(lb)
+									return false
+								}
+							}
+						}
+					}
+				}
 			case *ast.StarExpr:
 				if pid, ok := x.X.(*ast.Ident); ok {
 					if a, ok := env[pid.Name]; ok {
